@@ -230,13 +230,24 @@ static std::string check_keys(const KV &c) {
         if (o2.bytes() != kb.bytes()) return at + "key value changed by randomize";
         if (tk == 5) for (int wv = 0; wv < nwords; ++wv) for (int i = 0; i < ks; ++i) if (adp_share(&kw[wv], i) == before[wv][i]) return at + "share " + num(i) + " of key word " + num(wv) + " unchanged by randomize with a random tape";
     }
+    // "The application can copy the entire contents of this structure as-is": relocate the masked key byte for byte,
+    // wipe the original, and go on with the copy
+    ascon_masked_key_160_t k6c; ascon_masked_key_128_t k2c;
+    ascon_masked_key_160_t *pk6 = &k6; ascon_masked_key_128_t *pk2 = &k2;
+    if (rounds & 1) {
+        if (k160) { memcpy(&k6c, &k6, sizeof k6); ascon_masked_key_160_free(&k6); memset(&k6, 0xEE, sizeof k6); pk6 = &k6c; }
+        else { memcpy(&k2c, &k2, sizeof k2); ascon_masked_key_128_free(&k2); memset(&k2, 0xEE, sizeof k2); pk2 = &k2c; }
+        Buf o3(klen);
+        if (k160) ascon_masked_key_160_extract(pk6, o3.p); else ascon_masked_key_128_extract(pk2, o3.p);
+        if (o3.bytes() != kb.bytes()) return at + "a byte-for-byte copy of the masked key does not extract to the key";
+    }
     // the masked key must work in the masked AEAD
     Bytes nonce(16, 7), ad = {1, 2, 3}, pt = {9, 8, 7, 6, 5, 4, 3, 2, 1, 0, 11};
     Buf nb(nonce), ab(ad), mb(pt), ct(pt.size() + 16);
     size_t clen = 0;
-    if (k160) ascon80pq_masked_aead_encrypt(ct.p, &clen, mb.p, mb.n, ab.p, ab.n, nb.p, &k6); else ascon128_masked_aead_encrypt(ct.p, &clen, mb.p, mb.n, ab.p, ab.n, nb.p, &k2);
+    if (k160) ascon80pq_masked_aead_encrypt(ct.p, &clen, mb.p, mb.n, ab.p, ab.n, nb.p, pk6); else ascon128_masked_aead_encrypt(ct.p, &clen, mb.p, mb.n, ab.p, ab.n, nb.p, pk2);
     if (ct.bytes() != ref::aead_encrypt(k160 ? ref::A80PQ : ref::A128, kb.bytes(), nonce, ad, pt)) return at + "masked AEAD with the (re-randomised) key differs from the reference";
-    if (k160) ascon_masked_key_160_free(&k6); else ascon_masked_key_128_free(&k2);
+    if (k160) ascon_masked_key_160_free(pk6); else ascon_masked_key_128_free(pk2);
     return "";
 }
 
